@@ -23,6 +23,7 @@ type c07Params struct {
 	Cause    string // close | eof | readerr | writeerr | cancel
 	FloodCtl bool
 	UserSend int  // lines a user task is sending concurrently
+	UserLate bool // that task is started at the moment of the cause, not before the backlog is built
 	ChanCap  int  // 0 = real capacity (32); 2 = capacity-scaled abstraction
 	Probe    bool // every handler calls the client's query API (Me, Connected, StateTracker, String) while it runs
 	Tracking bool // state tracking on; the backlog consists of JOINs of other users
@@ -34,6 +35,9 @@ type c07Params struct {
 
 func (p c07Params) name() string {
 	n := fmt.Sprintf("teardown/in=%d/%s/mode=%s/emit=%d/stall=%v/cause=%s/fc=%v/user=%d/cap=%d", p.Backlog, p.Segs, p.Mode, p.Emit, p.Stall, p.Cause, p.FloodCtl, p.UserSend, p.ChanCap)
+	if p.UserLate {
+		n += "/user-starts-at-cause"
+	}
 	if p.Probe {
 		n += "/probe"
 	}
@@ -57,7 +61,7 @@ func (p c07Params) name() string {
 
 func (p c07Params) params() map[string]interface{} {
 	return map[string]interface{}{"inbound_backlog": p.Backlog, "segs": p.Segs, "mode": p.Mode, "emit": p.Emit, "stall": p.Stall,
-		"cause": p.Cause, "floodctl": p.FloodCtl, "user_send": p.UserSend, "chancap": p.ChanCap, "probe": p.Probe, "tracking": p.Tracking, "on_connected": p.OnConn, "longquit": p.LongQuit, "dead_peer": p.Dead, "bg_busy": p.BGBusy}
+		"cause": p.Cause, "floodctl": p.FloodCtl, "user_send": p.UserSend, "user_late": p.UserLate, "chancap": p.ChanCap, "probe": p.Probe, "tracking": p.Tracking, "on_connected": p.OnConn, "longquit": p.LongQuit, "dead_peer": p.Dead, "bg_busy": p.BGBusy}
 }
 
 func c07Scenario(p c07Params) *explore.Scenario {
@@ -106,7 +110,8 @@ func c07Scenario(p c07Params) *explore.Scenario {
 				gate.Wait()
 			case "sending":
 				for i := 0; i < p.Emit; i++ {
-					conn.Raw(fmt.Sprintf("PRIVMSG #c :echo %d", i))
+					// (what follows the line break must never reach the wire, however the line leaves the queue)
+					conn.Raw(fmt.Sprintf("PRIVMSG #c :echo %d\r\nGLUED :never to be sent", i))
 				}
 			}
 			probe(conn)
@@ -164,13 +169,16 @@ func c07Scenario(p c07Params) *explore.Scenario {
 		default:
 			vc.Send(Privmsgs(0, p.Backlog+1))
 		}
-		if p.UserSend > 0 {
+		userSender := func() {
 			env.GoBlocked("user-sender", func() {
 				// sends issued after DISCONNECTED are outside the claim and may block for ever
 				for i := 0; i < p.UserSend; i++ {
-					c.Raw(fmt.Sprintf("PRIVMSG #c :user %d", i))
+					c.Raw(fmt.Sprintf("PRIVMSG #c :user %d\r\nGLUED :never to be sent", i))
 				}
 			})
+		}
+		if p.UserSend > 0 && !p.UserLate {
+			userSender()
 		}
 		first.Wait()
 		vx.Quiesce() // the receive goroutine has queued everything it can; a sending handler is blocked or done
@@ -180,6 +188,9 @@ func c07Scenario(p c07Params) *explore.Scenario {
 		if p.LongQuit {
 			c.Raw(c07LongLine)
 			c.Quit("bye")
+		}
+		if p.UserSend > 0 && p.UserLate {
+			userSender()
 		}
 		if p.Cause != "close-from-bg" {
 			vx.Observe("ev", "cause-begin "+p.Cause)
@@ -573,6 +584,11 @@ func c07Jobs(tier string) []Job {
 		}
 		add(c07Params{Backlog: 3, Segs: "one", Mode: "gated", Cause: cs, Probe: true, Tracking: true, ChanCap: 2}, b2, 20)
 	}
+	// a user task that starts sending at the very moment of the cause (its lines carry an injected second command)
+	for _, cs := range causes {
+		add(c07Params{Backlog: 1, Segs: "one", Mode: "idle", Cause: cs, UserSend: 5, UserLate: true}, b2, 20)
+	}
+	add(c07Params{Backlog: 1, Segs: "one", Mode: "idle", Cause: "cancel", UserSend: 40, UserLate: true}, b1, 30)
 	// the server announces the end with an ERROR line before it closes
 	for _, bl := range []int{0, 1, 33} {
 		add(c07Params{Backlog: bl, Segs: "one", Mode: "gated", Cause: "error-eof"}, b1, 10+bl)
